@@ -302,6 +302,9 @@ class Polynomial(Expression):
             return -1
     degree = property(_degree)
 
+    # the attributes Expression.__setstate__ restores from __getinitargs__()
+    init_arg_names = ("Base", "Data", "Unit", "VarLess")
+
     def __getinitargs__(self):
         return (self.Base, self.Data, self.Unit, self.VarLess)
 
